@@ -39,7 +39,7 @@ type shardLoader interface {
 
 type DirectoryWatcher struct {
 	dir        string
-	timestamps map[string]time.Time
+	timestamps map[string]shardStamp
 	loader     shardLoader
 
 	// closed once ready
@@ -63,7 +63,7 @@ func (sw *DirectoryWatcher) Stop() {
 func newDirectoryWatcher(dir string, loader shardLoader) (*DirectoryWatcher, error) {
 	sw := &DirectoryWatcher{
 		dir:        dir,
-		timestamps: map[string]time.Time{},
+		timestamps: map[string]shardStamp{},
 		loader:     loader,
 		ready:      make(chan struct{}),
 		quit:       make(chan struct{}),
@@ -118,6 +118,15 @@ func versionFromPath(path string) (string, int) {
 	return path[:und], version
 }
 
+// shardStamp is what scan remembers about a loaded shard: the modification
+// times of the shard file and of its .meta sidecar (zero if there is none). A
+// single time, the later of the two, does not change when a sidecar that is
+// older than its shard is removed, or when a new shard is renamed into place
+// before the sidecar of the old one is deleted.
+type shardStamp struct {
+	shard, meta time.Time
+}
+
 func (s *DirectoryWatcher) scan() error {
 	// NOTE: if you change which file extensions are read, please update the
 	// watch implementation.
@@ -141,7 +150,7 @@ func (s *DirectoryWatcher) scan() error {
 		}
 	}
 
-	ts := map[string]time.Time{}
+	ts := map[string]shardStamp{}
 	for _, fn := range fs {
 		if name, version := versionFromPath(fn); latest[name] != version {
 			continue
@@ -152,15 +161,11 @@ func (s *DirectoryWatcher) scan() error {
 			continue
 		}
 
-		ts[fn] = fi.ModTime()
-
-		fiMeta, err := os.Lstat(fn + ".meta")
-		if err != nil {
-			continue
+		stamp := shardStamp{shard: fi.ModTime()}
+		if fiMeta, err := os.Lstat(fn + ".meta"); err == nil {
+			stamp.meta = fiMeta.ModTime()
 		}
-		if fiMeta.ModTime().After(fi.ModTime()) {
-			ts[fn] = fiMeta.ModTime()
-		}
+		ts[fn] = stamp
 	}
 
 	var toLoad []string
